@@ -89,6 +89,30 @@ class Run(object):
         self.undecided.append(dict(rule=rid, where=where, what=what))
 
     # ------------------------------------------------------------- finish
+    def settle(self):
+        """A rule that lost an anchor or fell below an instance floor in this run did not recognise the code it judges: what it
+        would report as a violation is then not asserted but handed on as *undecided* (exit 2), together with the reason.
+        (Only a rule that recognised every instance it was confirmed on may say VIOLATION.)"""
+        def base(r):
+            return set([r] + r.split('/'))
+        lost = set()
+        for u in self.undecided:
+            lost |= base(u['rule'])
+        lost.discard('-')
+        if not lost:
+            return
+        keep = []
+        seen = set()
+        for f in self.findings:
+            if base(f.rule) & lost:
+                if f.key not in seen:
+                    seen.add(f.key)
+                    self.undecided.append(dict(rule=f.rule, where='%s:%d' % (f.file, f.line),
+                                               what='not asserted (the rule lost an anchor in this run): %s' % f.message[:300], demoted=f.key))
+            else:
+                keep.append(f)
+        self.findings = keep
+
     def load_known(self):
         if not os.path.exists(KNOWN_FILE):
             return []
